@@ -131,6 +131,7 @@ type Op struct {
 	Dt     int    `json:"dt,omitempty"`
 	Entry  string `json:"entry,omitempty"`
 	Target string `json:"target,omitempty"`
+	D      int    `json:"d,omitempty"` // which data the render passes: title "D<d>", x "X<d>"
 }
 
 // Case is an initial configuration (file -> variant; missing key = file absent; all mtimes t0)
@@ -228,20 +229,24 @@ type stats struct {
 	freshRendersWithErr int
 }
 
-var testData = func() map[string]any { return map[string]any{"title": "D", "x": "X"} }
+// testData builds the caller's data (a new map each time). It varies between renders so that
+// anything a render leaves behind in shared state (cached DOM, cached front-matter) would show.
+func testData(d int) map[string]any {
+	return map[string]any{"title": fmt.Sprintf("D%d", d), "x": fmt.Sprintf("X%d", d)}
+}
 
-func doRender(entry, target string, root vuego.Template, vue *vuego.Vue) (string, error) {
+func doRender(entry, target string, d int, root vuego.Template, vue *vuego.Vue) (string, error) {
 	var buf bytes.Buffer
 	var err error
 	switch entry {
 	case eLoadRender:
-		err = root.Load(target).Fill(testData()).Render(context.Background(), &buf)
+		err = root.Load(target).Fill(testData(d)).Render(context.Background(), &buf)
 	case eRenderFile:
 		err = root.RenderFile(context.Background(), &buf, target)
 	case eVueRender:
-		err = vue.Render(&buf, target, testData())
+		err = vue.Render(&buf, target, testData(d))
 	case eVueFrag:
-		err = vue.RenderFragment(&buf, target, testData())
+		err = vue.RenderFragment(&buf, target, testData(d))
 	default:
 		return "", fmt.Errorf("harness: unknown entry %q", entry)
 	}
@@ -435,16 +440,16 @@ func execute(c Case) (error, stats) {
 			}
 
 			fs.ResetCounters()
-			got, gotErr := doRender(op.Entry, target, root, vue)
+			got, gotErr := doRender(op.Entry, target, op.D, root, vue)
 			opens := fs.Opens(target)
 
 			snap := fs.Snapshot()
 			var want string
 			var wantErr error
 			if op.Entry == eVueRender || op.Entry == eVueFrag {
-				want, wantErr = doRender(op.Entry, target, nil, vuego.NewVue(snap))
+				want, wantErr = doRender(op.Entry, target, op.D, nil, vuego.NewVue(snap))
 			} else {
-				want, wantErr = doRender(op.Entry, target, vuego.NewFS(snap), nil)
+				want, wantErr = doRender(op.Entry, target, op.D, vuego.NewFS(snap), nil)
 			}
 			if wantErr != nil {
 				s.freshRendersWithErr++
@@ -654,7 +659,7 @@ func buildHistory(init map[string]int, word []int) Case {
 		l := alphabet[li]
 		switch l.op {
 		case "render":
-			c.Ops = append(c.Ops, Op{Op: "render", Entry: l.entry})
+			c.Ops = append(c.Ops, Op{Op: "render", Entry: l.entry, D: len(c.Ops) % 2})
 		case "delete":
 			exists[l.file] = false
 			c.Ops = append(c.Ops, Op{Op: "delete", File: l.file})
@@ -761,7 +766,7 @@ func genCase(t *rapid.T) Case {
 		}
 		switch k {
 		case "render", "render-twice":
-			op := Op{Op: "render", Entry: rapid.SampledFrom(entriesW).Draw(t, "entry")}
+			op := Op{Op: "render", Entry: rapid.SampledFrom(entriesW).Draw(t, "entry"), D: rapid.IntRange(0, 2).Draw(t, "data")}
 			if i == 0 && warm && op.Entry == eVueFrag {
 				op.Entry = eVueRender
 			}
@@ -770,6 +775,9 @@ func genCase(t *rapid.T) Case {
 			}
 			c.Ops = append(c.Ops, op)
 			if k == "render-twice" && i < n-1 { // the same render again: the second may be answered from the cache
+				if rapid.Bool().Draw(t, "other-data") {
+					op.D = (op.D + 1) % 3
+				}
 				c.Ops = append(c.Ops, op)
 				i++
 			}
